@@ -178,6 +178,13 @@ class Net(object):
         with self.lock:
             return not self.pending()
 
+    def settled(self):
+        '''threaded mode: no publication waits for delivery and no subscriber
+        callback is running'''
+        with self.lock:
+            return not self.pending() and \
+                   not getattr(self, '_rpverif_in_delivery', 0)
+
     def close(self):
         with self.cond:
             self.closed = True
@@ -386,7 +393,13 @@ class Subscriber(object):
                     net.cond.wait(0.05)
                     continue
                 topic, msg = self._inbox.popleft()
-            self._deliver(topic, msg)
+                net._rpverif_in_delivery = \
+                        getattr(net, '_rpverif_in_delivery', 0) + 1
+            try:
+                self._deliver(topic, msg)
+            finally:
+                with net.lock:
+                    net._rpverif_in_delivery -= 1
 
     def _deliver(self, topic, msg):
         if isinstance(msg, (list, tuple)) and not msg:
